@@ -15,6 +15,7 @@
    reports C12OutOfFuel; the undefined read `*(rtrim(value).rbegin())` on an empty string is
    recorded in a flag (F-C12-2). *)
 From Coq Require Import List Ascii ZArith NArith Bool.
+From DuneV Require Import Params_gen.
 Import ListNotations.
 Local Open Scope char_scope.
 
@@ -29,9 +30,11 @@ Fixpoint c12_eqs (a b : c12_str) : bool :=
   | _, _ => false
   end.
 
-(* the set " \t\n\r" used by ltrim/rtrim/split *)
-Definition c12_is_ws (c : ascii) : bool :=
-  Ascii.eqb c " " || Ascii.eqb c "009" || Ascii.eqb c "010" || Ascii.eqb c "013".
+(* the blank set of ltrim/rtrim/split: c12_param_ws, re-read from the find_first_not_of / find_last_not_of /
+   find_first_of literals of parametertree.cc and parametertreeparser.cc (space, tab, line feed, carriage return) *)
+Definition c12_in_codes (c : ascii) (codes : list N) : bool := existsb (N.eqb (N_of_ascii c)) codes.
+Definition c12_is_ws (c : ascii) : bool := c12_in_codes c c12_param_ws.
+Arguments c12_is_ws : simpl never.
 
 (* std::isspace in the classic locale: 9..13 and 32 (what an istream sentry skips) *)
 Definition c12_is_space (c : ascii) : bool :=
@@ -258,27 +261,38 @@ Fixpoint c12_insert {A} (k : c12_str) (a : A) (l : list (c12_str * A)) : list (c
 Definition c12_sort {A} (l : list (c12_str * A)) : list (c12_str * A) :=
   fold_right (fun kv acc => c12_insert (fst kv) (snd kv) acc) [] l.
 
-Definition c12_value_line (kv : c12_str * c12_str) : c12_str :=
-  fst kv ++ [" "; "="; " "; """"] ++ snd kv ++ [""""].
-Definition c12_header_line (pfx k : c12_str) : c12_str := ["["; " "] ++ pfx ++ k ++ [" "; "]"].
+(* the lines of a report, structured: a value line  key = "value"  or a header line  [ name ] *)
+Inductive c12_rline := C12RValue (k v : c12_str) | C12RHeader (name : c12_str).
 
-Fixpoint c12_report_lines (t : c12_tree) (pfx : c12_str) : list c12_str :=
+Fixpoint c12_report_rlines (t : c12_tree) (pfx : c12_str) : list c12_rline :=
   match t with
   | C12Node vals subs =>
-    map c12_value_line (c12_sort vals) ++
+    map (fun kv : c12_str * c12_str => C12RValue (fst kv) (snd kv)) (c12_sort vals) ++
     concat (map snd (c12_sort
-      ((fix blocks (l : list (c12_str * c12_tree)) : list (c12_str * list c12_str) :=
+      ((fix blocks (l : list (c12_str * c12_tree)) : list (c12_str * list c12_rline) :=
           match l with
           | [] => []
-          | (k, s) :: r => (k, c12_header_line pfx k :: c12_report_lines s (pfx ++ k ++ ["."])) :: blocks r
+          | (k, s) :: r => (k, C12RHeader (pfx ++ k) :: c12_report_rlines s (pfx ++ k ++ ["."])) :: blocks r
           end) subs)))
   end.
+
+Definition c12_render_rline (l : c12_rline) : c12_str :=
+  match l with
+  | C12RValue k v => k ++ " " :: "=" :: " " :: """" :: v ++ [""""]
+  | C12RHeader name => "[" :: " " :: name ++ [" "; "]"]
+  end.
+Definition c12_value_line (kv : c12_str * c12_str) : c12_str := c12_render_rline (C12RValue (fst kv) (snd kv)).
+
+Definition c12_report_lines (t : c12_tree) (pfx : c12_str) : list c12_str :=
+  map c12_render_rline (c12_report_rlines t pfx).
 
 (* ---------------------------------------------------------------- 3. readINITree *)
 
 Inductive c12_status := C12Ok | C12RangeError | C12ParserError | C12HelpRequest | C12OutOfFuel.
 
-Definition c12_is_quote (c : ascii) : bool := Ascii.eqb c "'" || Ascii.eqb c """".
+(* the quote characters: c12_param_quotes, re-read from the comparison of value[0] in readINITree *)
+Definition c12_is_quote (c : ascii) : bool := c12_in_codes c c12_param_quotes.
+Arguments c12_is_quote : simpl never.
 
 (* while ( * (rtrim(value).rbegin()) != quote) { if (!in.eof()) value += NL + getline; else value += quote; }
    [rest] = the lines not yet read ([] <-> in.eof()).  Third component: the undefined read happened. *)
@@ -643,11 +657,12 @@ Definition c12_tolower (c : ascii) : ascii :=
   let n := N_of_ascii c in
   if ((65 <=? n) && (n <=? 90))%N then ascii_of_N (n + 32) else c.
 
-(* Parser<bool> *)
+(* Parser<bool>; the accepted words are c12_param_true_words / c12_param_false_words, re-read from the source *)
+Definition c12_words (ws : list (list N)) : list c12_str := map (map ascii_of_N) ws.
 Definition c12_parse_bool (s : c12_str) : option bool :=
   let r := map c12_tolower s in
-  if c12_eqs r ["y";"e";"s"] || c12_eqs r ["t";"r";"u";"e"] then Some true
-  else if c12_eqs r ["n";"o"] || c12_eqs r ["f";"a";"l";"s";"e"] then Some false
+  if existsb (c12_eqs r) (c12_words c12_param_true_words) then Some true
+  else if existsb (c12_eqs r) (c12_words c12_param_false_words) then Some false
   else match c12_parse_scalar (c12_ity_extract C12Int) r with
        | Some v => Some (negb (v =? 0)%Z)
        | None => None
